@@ -9,6 +9,7 @@ CONSTANTS
   Ops <- MC_OpsLazy
   ReqVers <- MC_V12
   Lazies <- MC_Both
+  Dev <- MC_DevMem
   Known <- MC_KnownDesign
 CHECK_DEADLOCK FALSE
 INVARIANT NoW_mem_other
